@@ -88,17 +88,17 @@ func (obj *RuneReader) ReadRune() (r rune, size int, err error) {
 				size = 1
 			case (buf[0] & 0xf8) == 0xf0: // 11110xxx
 				// 4 byte rune
-				if cnt, err = obj.Read(buf[1:]); cnt == 3 && err == nil {
+				if cnt, err = io.ReadFull(obj, buf[1:]); cnt == 3 && err == nil {
 					r, size = utf8.DecodeRune(buf)
 				}
 			case (buf[0] & 0xf0) == 0xe0: // 1110xxxx
 				// 3 byte rune
-				if cnt, err = obj.Read(buf[1:3]); cnt == 2 && err == nil {
+				if cnt, err = io.ReadFull(obj, buf[1:3]); cnt == 2 && err == nil {
 					r, size = utf8.DecodeRune(buf)
 				}
 			case (buf[0] & 0xe0) == 0xc0: // 110xxxxx
 				// 2 byte rune
-				if cnt, err = obj.Read(buf[1:2]); cnt == 1 && err == nil {
+				if cnt, err = io.ReadFull(obj, buf[1:2]); cnt == 1 && err == nil {
 					r, size = utf8.DecodeRune(buf)
 				}
 			}
